@@ -28,6 +28,8 @@ def t_skip(chk, ix):
     # the feature's own hooks run exactly when something inside the feature runs - also when that is a scenario of a rule
     from .. import rules_select
     rules_select.check_container_children_concrete(chk, ix)
+    # ... and 'something inside it runs' is decided on the effective (inherited) tags (shared with C09)
+    rules_select.check_tag_consultation(chk, ix)
 
 
 def run(chk, ix, tier):
